@@ -29,6 +29,8 @@ pub trait Hist: Send {
     fn add_assign_from(&mut self, other: &dyn Hist);
     fn mul_assign(&mut self, k: u64);
     fn boxed_clone(&self) -> Box<dyn Hist>;
+    /// `Clone::clone_from`
+    fn clone_from_other(&mut self, other: &dyn Hist);
     fn iter_items(&self) -> Vec<((f64, f64), u64)>;
     fn into_iter_items(&self) -> Vec<((f64, f64), u64)>;
     /// iteration through the standard adaptors: nth(k), skip(k), step_by(k), last, count
@@ -87,6 +89,10 @@ macro_rules! hist_impl {
             }
             fn boxed_clone(&self) -> Box<dyn Hist> {
                 Box::new(self.clone())
+            }
+            fn clone_from_other(&mut self, other: &dyn Hist) {
+                let o = other.as_any().downcast_ref::<$m::Histogram>().expect("harness: same LEN");
+                Clone::clone_from(self, o)
             }
             fn iter_items(&self) -> Vec<((f64, f64), u64)> {
                 self.iter().collect()
@@ -233,6 +239,10 @@ pub mod cg {
                 }
                 fn boxed_clone(&self) -> Box<dyn Hist> {
                     Box::new(self.clone())
+                }
+                fn clone_from_other(&mut self, other: &dyn Hist) {
+                    let o = other.as_any().downcast_ref::<CH<$n>>().expect("harness: same LEN");
+                    Clone::clone_from(self, o)
                 }
                 fn iter_items(&self) -> Vec<((f64, f64), u64)> {
                     self.iter().collect()
